@@ -4,7 +4,7 @@ import random
 
 KEYS = ["a", "b", "c", "d", "id", "name", "value", "items", "x", "y"]
 PLAIN = ["x", "foo", "bar", "s" * 19, "t" * 20, "u" * 21, "hello world", "a,b", 'q"uote', "back\\slash", "new\nline",
-         "été", "中", "", "Foo", "FOO", " true", "False ", "a", "b", "...", "1 ", "nan ", "\u2028x"]
+         "été", "中", "\U0001F600", "", "Foo", "FOO", " true", "False ", "a", "b", "...", "1 ", "nan ", "\u2028x"]
 INTS = ["1", "42", "-7", "+3", " 5 ", "1_000", "0", "١٢", "1" * 40, "115792089237316195423570985008687907853269984665640564039457584007913129639935"]
 FLOATS = ["1.5", "-0.25", "1e3", "inf", "nan", ".5", "2.", "1_0.5", "-Infinity", "3." + "14159265358979323846" * 2, "1e400"]
 BOOLS = ["true", "false", "True", "FALSE"]
